@@ -17,6 +17,7 @@ from decimal import Decimal
 from lib import monitors, treeconv
 
 ID = 'C11'
+TECHNIQUE = 'offline history checker: call log grouped by visible arguments vs history-free calls (fresh parser, fresh process) + lexer start-state monitor'
 RULE = ('histories of 5-40 calls on one SqParser (plain and with a dict parse cache) over a corpus of valid, lexically invalid, syntactically invalid (mid-text, premature end, '
         'unbalanced open and close brackets, failing inside brackets on a later line), run-time failing, budget-exhausting and host-callback-raising sources; entry points parse, '
         'eval, list_names fully consumed and list_names abandoned after k names; names mappings: fresh per call (several templates) and mappings that persist across calls and are '
